@@ -274,7 +274,9 @@ fn bytes_case(ctx: &mut Ctx, idx: usize) {
         return;
     }
     let edge: [u8; 9] = [0x00, 0x09, 0x0a, 0x0b, 0x0c, 0x0d, 0x20, 0x7f, 0xff];
-    let n = [0usize, 1, 2, 31, 32, 33, 64][ctx.prng.gen_range(0..7)];
+    // lengths around the widths the library hashes itself, around the SHA3-256 rate (136 bytes) and its multiples,
+    // around 1088 (the rate in bits), powers of two, and a few kilobytes
+    let n = [0usize, 1, 2, 31, 32, 33, 47, 48, 64, 95, 96, 97, 135, 136, 137, 271, 272, 273, 1023, 1024, 1087, 1088, 1089, 2048, 4096, 5000][ctx.prng.gen_range(0..26)];
     let mut data: Vec<u8> = (0..n).map(|_| ctx.prng.gen()).collect();
     // edge values at the ends (and sometimes everywhere)
     for i in 0..n {
